@@ -75,6 +75,28 @@ Theorem mixed_strict_prefix_refuted :
 Proof. exact mixed_strict_ok. Qed.
 Print Assumptions mixed_strict_prefix_refuted.
 
+(* Strict comparison of an INTEGER variable with a FLOAT CONSTANT (props.less_than(x, c) / greater_than(x, c)).  BETWEEN the two
+   repairs (prune_flt_prefix_const: x.next() <= c) x = 6 < 6.625 and x = -1 < -0.5 failed (the value floor(c) was lost) and
+   2.0 < x accepted x = 2 (the successor of a float constant is the constant); AFTER the repair (LessThan bounds the integer
+   side directly: x <= ceil(c) - 1, x >= floor(c) + 1) x in 1..6 keeps 6 under x < 6.625, loses 6 under x < 6.0, becomes 3..6
+   under 2.0 < x and under 2.25 < x, and x in {-1, 0} becomes -1 under x < -0.5. *)
+Theorem strict_int_const_prefix_refuted :
+  prune_flt_prefix_const (FVar 0) (FConst (VlF (of_bits 0x401a800000000000))) ([VI [6]%Z], []) = None /\
+  prune_flt_prefix_const (FConst (VlF (of_bits 0x4000000000000000))) (FVar 0) ([VI [2]%Z], []) = Some ([VI [2]%Z], []) /\
+  prune_flt_prefix_const (FVar 0) (FConst (VlF (of_bits 0xbfe0000000000000))) ([VI [-1; 0]%Z], []) = None /\
+  prune_flt (FVar 0) (FConst (VlF (of_bits 0x401a800000000000))) (w_six, []) = Some (w_six, []) /\
+  prune_flt (FVar 0) (FConst (VlF (of_bits 0x401a800000000000))) ([VI [6]%Z], []) = Some ([VI [6]%Z], []) /\
+  prune_flt (FVar 0) (FConst (VlF (of_bits 0x4018000000000000))) (w_six, []) = Some ([VI [1; 2; 3; 4; 5]%Z], [0%nat]) /\
+  prune_flt (FConst (VlF (of_bits 0x4000000000000000))) (FVar 0) (w_six, []) = Some ([VI [3; 4; 5; 6]%Z], [0%nat]) /\
+  prune_flt (FConst (VlF (of_bits 0x4000000000000000))) (FVar 0) ([VI [2]%Z], []) = None /\
+  prune_flt (FConst (VlF (of_bits 0x4002000000000000))) (FVar 0) (w_six, []) = Some ([VI [3; 4; 5; 6]%Z], [0%nat]) /\
+  prune_flt (FVar 0) (FConst (VlF (of_bits 0xbfe0000000000000))) ([VI [-1; 0]%Z], []) = Some ([VI [-1]%Z], [0%nat]) /\
+  prune_flt (FVar 0) (FConst (VlF (of_bits 0xc1e65a0bc0000000))) (w_six, []) = None /\
+  prune_flt (FVar 0) (FConst (VlF (of_bits 0x7ff8000000000000))) (w_six, []) = None /\
+  prune_flt (FVar 0) (FConst (VlF (of_bits 0x7ff0000000000000))) (w_six, []) = Some (w_six, []).
+Proof. exact strict_int_const_ok. Qed.
+Print Assumptions strict_int_const_prefix_refuted.
+
 (* IntLinLe posted DIRECTLY on a float variable (props level) uses the integer rules: IntLinLe([-1],[x],-3), i.e. the integer
    reading of x > 2, fails x in [0, 2.5].  The runtime API no longer produces this propagator for float variables (repair
    "linear constraints with integer literals over float variables are posted as float linear constraints": x.gt(2) becomes
